@@ -108,6 +108,8 @@ def impl_run(case):
     use_c = kind == "lc.c"
     # with the C engine the matrix lives in the compact layout: read it through wp_slice
     base = np.array(lc.wp_slice() if use_c else lc.wp, dtype=np.double)
+    # the search mask of the non-compact matrix right after align(): True = excluded from the match search
+    mask0 = None if use_c else np.array(np.ma.getmaskarray(lc._wp), dtype=bool)
     hist = []
     for k, minlen, restart in case["ops"]:
         before = np.array(lc.wp_slice() if use_c else lc._wp.data, dtype=np.double)
@@ -117,7 +119,7 @@ def impl_run(case):
             if len(ms) >= 6:
                 break
         hist.append({"before": before, "matches": ms})
-    return {"base": base, "hist": hist}
+    return {"base": base, "hist": hist, "mask0": mask0}
 
 
 def same(a, b, rel=4e-16):
@@ -152,8 +154,24 @@ def judge(case, got, exp):
             # the C kernel associates the sums differently: same tolerance as the c.aff site
             if not same(float(base[i][j]), float(ref[i, j]), 2e-15 if case["kind"] == "lc.c" else 4e-16):
                 return {"kind": "lc-matrix-differs-from-recurrence", "cell": [i, j]}
+    # only cells outside the band (below the diagonal with only_triu) are excluded from the match search
+    if g.get("mask0") is not None:
+        for i in range(1, r + 1):
+            for j in range(1, c + 1):
+                if bool(g["mask0"][i][j]) and float(ref[i, j]) != -math.inf:
+                    return {"kind": "in-band-cell-excluded-from-search", "cell": [i, j], "value": float(ref[i, j])}
     used = set()
     for (k, minlen, restart), h in zip(case["ops"], g["hist"]):
+        if restart and minlen <= 1 and (k is None or k >= 1):
+            # traced from a maximum: the first match of a fresh search ends in a cell holding the largest value
+            best = max((float(ref[i, j]) for i in range(1, r + 1) for j in range(1, c + 1)), default=-math.inf)
+            if best > 0:
+                if not h["matches"]:
+                    return {"kind": "no-match-although-positive-maximum", "max": best}
+                a, b = h["matches"][0][-1]
+                if not same(float(ref[a + 1, b + 1]), best, 1e-12):
+                    return {"kind": "first-match-not-from-the-maximum", "end": [a, b], "value": float(ref[a + 1, b + 1]),
+                            "max": best}
         if restart:
             used = set()
         before = h["before"]
